@@ -155,6 +155,23 @@ pub fn run(params: &[i64], ops: &Rows, mon: &mut Mon) -> Rows {
                 let mut d = take_drops(); d.sort();
                 let mut w = v.to_vec(); w.sort();
                 if d != w { mon.fail(format!("case{} tuple payloads dropped {:?}, expected each of {:?} once", k, d, w)); }
+                // the same positions with fields of DIFFERENT sizes and alignments (a Rust tuple may order them differently from the repr(C) struct)
+                {
+                    let a = |i: usize| v.get(i).copied().unwrap_or(0);
+                    let (x0, x1, x2, x3) = (a(0) as u8, a(1) as u32, a(2) as u16, a(3) as u64);
+                    let (c0, c1): (u8, u64) = CTup2::from((x0, x3)).into();
+                    if (c0, c1) != (x0, x3) { mon.fail(format!("case{} CTup2<u8,u64> -> tuple gives {:?} for {:?}", k, (c0, c1), (x0, x3))); }
+                    let t3: (u8, u32, u16) = CTup3::from((x0, x1, x2)).into();
+                    if t3 != (x0, x1, x2) { mon.fail(format!("case{} CTup3<u8,u32,u16> -> tuple gives {:?} for {:?}", k, t3, (x0, x1, x2))); }
+                    let t4: (u8, u16, u32, u64) = CTup4::from((x0, x2, x1, x3)).into();
+                    if t4 != (x0, x2, x1, x3) { mon.fail(format!("case{} CTup4<u8,u16,u32,u64> -> tuple gives {:?} for {:?}", k, t4, (x0, x2, x1, x3))); }
+                    let b = CTup3::from((x2, x3, x0));
+                    if (b.0, b.1, b.2) != (x2, x3, x0) { mon.fail(format!("case{} tuple -> CTup3<u16,u64,u8> fields {:?} for {:?}", k, (b.0, b.1, b.2), (x2, x3, x0))); }
+                    let m: (u8, Tok, u16) = CTup3::from((x0, Tok::mk(a(1)), x2)).into();
+                    if (m.0, m.1.val(), m.2) != (x0, a(1), x2) { mon.fail(format!("case{} CTup3<u8,Tok,u16> -> tuple gives ({}, {}, {})", k, m.0, m.1.val(), m.2)); }
+                    drop(m);
+                    if take_drops() != vec![a(1)] { mon.fail(format!("case{} droppable field of a mixed tuple not dropped exactly once", k)); }
+                }
                 r
             }
             4 => {
